@@ -5,5 +5,7 @@ CONSTANTS
   MaxOps = 5
   MaxCrashes = 1
   KeyBySeq = TRUE
+  MaxFails = 1
+  KeepOnFail = TRUE
 INVARIANTS FifoNoCrash PendingExact Durable BoundRespected KeysUnique
 CHECK_DEADLOCK FALSE
